@@ -276,6 +276,8 @@ def mutate1(v, atoms=ATOMS, _top=True) -> t.Iterator[t.Any]:
         for nk in ('zz', 0, None):
             if nk not in v:
                 yield dict(items + [(nk, 1)])                     # add an unknown key
+        if _top and 'zz' not in v and 0 not in v:
+            yield dict(items + [('zz', 1), (0, 1)])               # two unknown keys that cannot be ordered against each other
         if _top:
             yield [x for _, x in items]                           # sequence instead of mapping
             yield [[kk, x] for kk, x in items]                    # list of pairs
